@@ -11,3 +11,8 @@ pub proof fn axiom_iter_mut_unvisited<T>(s: Seq<&mut T>, m: int)
 // this From impl and its signature cannot be matched by assume_specification in this build)
 #[verifier::external_body]
 pub fn vx_vec_from_slice(s: &[R]) -> (v: Vec<R>) ensures v@ == s@ { Vec::from(s) }
+// the quadrature tables (src/integrate/tables.rs) as seen by the integrators: an opaque table per family.
+// The table CONTENTS are decided by C10; the integrators are verified for every table.
+pub uninterp spec fn table_spec(id: int) -> Seq<Vec<(R, R)>>;
+#[verifier::external_body]
+pub fn vx_table(id: u8) -> (t: &'static Vec<Vec<(R, R)>>) ensures t@ == table_spec(id as int) { unimplemented!() }
